@@ -65,6 +65,7 @@ class Extract:
         self.keep_derives = None
         self.ghost_items = []
         self.contract_only = False   # T8: keep signature + contract, drop the body (callee stub)
+        self.verifier_attrs = []
 
 
 class Block:
@@ -165,6 +166,13 @@ def parse_unit(path, _depth=0, contract_only=False):
                 sink = ext.ghost_items
             elif key == 'noattrs':
                 ext.no_attrs = True
+            elif key == 'verifier-attrs':
+                # encoding options of the verifier for this item (e.g. loop_isolation(false): the facts known before a loop
+                # stay known inside it); only `#[verifier::loop_isolation(..)]` / `#[verifier::allow_complex_invariants]`
+                for a in re.findall(r'#\[[^\]]*\]', rest):
+                    if a not in ('#[verifier::loop_isolation(false)]', '#[verifier::allow_complex_invariants]'):
+                        raise UnitError('%s:%d: verifier attribute not allowed: %s' % (path, ln, a))
+                    ext.verifier_attrs.append(a)
             elif key == 'contract-only':
                 ext.contract_only = True
             elif key == 'verify-body':
@@ -562,7 +570,7 @@ def build_item(repo, ext, unit_path):
                     lost.append({'fn': ann.name or ext.anchor.split()[-1], 'what': 'proof hint at ' + rx})
                     continue
                 first = lines[0][1].strip()
-                if not (first.startswith('proof {') or first.startswith('assert')):
+                if not (first.startswith('proof {') or first.startswith('assert') or first.startswith('let ghost ')):
                     raise UnitError('@proof may only insert ghost code')
                 pos = bs + mm.start()
                 pind = re.match(r'[ \t]*', mm.group(0)).group(0)
@@ -682,6 +690,8 @@ def generate(repo, unit_path, generators=None, auto=None):
             g.add('// ---- EXTRACTED %s :: %s  (lines %d-%d, rules %s) ----' % (
                 ext.relpath, ext.anchor, info['span_lines'][0], info['span_lines'][1], ','.join(info['rules'])),
                 {'kind': 'banner'})
+            for a in ext.verifier_attrs:
+                g.add(a, {'kind': 'annotation', 'file': ext.relpath, 'anchor': ext.anchor})
             # per line origin
             pos = 0
             start_line = len(g.lines)
